@@ -12,10 +12,11 @@ passed through has two different workers about to access the shared force arrays
   any interleaving;
 * `raceFree_iff_locals_only` — every schedule is race free iff task 0 increments only thread-local arrays (or
   there is a single worker);
-* `current_code_has_race`, `lost_update_witness` — the transcription of the CURRENT code in modes
-  `CachedAndNonCached` / `NonCached` has a racy interleaving, and a concrete interleaving loses an update
-  (finding F7);
-* `fixed_code_total` — with task 0 accumulating thread-locally in all modes every complete schedule gives Σ.
+* `current_code_total` — the transcription of the CURRENT code (task 0 accumulates thread-locally in all modes,
+  /repo commit 199e8a3a): every schedule is race free and every complete schedule gives the serial sum Σᵢ fᵢ;
+* `old_code_has_race`, `lost_update_witness_old` — HISTORICAL: the code before that commit, in modes
+  `CachedAndNonCached` / `NonCached`, had a racy interleaving, and a concrete interleaving lost an update
+  (finding F7; the harness keeps the stream that showed it as a regression test).
 
 Not carried by the theorems: real schedulers, the C++ memory model, floating-point summation order (the
 statement is "equal in any commutative monoid", i.e. equal up to the order of additions).
@@ -55,20 +56,23 @@ theorem raceFree_iff_locals_only (c : Config M) (hn : 0 < c.n) :
     · intro k ⟨a, b, ha, hb, hab, _⟩
       omega
 
-theorem configCurrent_n (numThreads : Nat) (mode : Mode) (forces : List (ForceElt M)) :
-    (configCurrent numThreads mode forces).n = C33.peWorkers numThreads := rfl
+theorem configV_n (old : Bool) (numThreads : Nat) (mode : Mode) (forces : List (ForceElt M)) :
+    (configV old numThreads mode forces).n = C33.peWorkers numThreads := rfl
 
-/-- **finding F7, general form**: in the transcription of the current code, in modes `CachedAndNonCached` and
-`NonCached`, with at least two executor threads and at least one enabled non-parallel force evaluated in that
-mode, there is an interleaving with a data race on the shared force arrays. -/
-theorem current_code_has_race (numThreads : Nat) (h2 : 2 ≤ numThreads) (mode : Mode) (hm : mode ≠ .all)
+theorem workers_pos (numThreads : Nat) : 0 < C33.peWorkers numThreads := by
+  unfold C33.peWorkers; split <;> omega
+
+/-- HISTORICAL (finding F7, general form): in the transcription of the code BEFORE /repo commit 199e8a3a, in modes
+`CachedAndNonCached` and `NonCached`, with at least two executor threads and at least one enabled non-parallel
+force evaluated in that mode, there is an interleaving with a data race on the shared force arrays. -/
+theorem old_code_has_race (numThreads : Nat) (h2 : 2 ≤ numThreads) (mode : Mode) (hm : mode ≠ .all)
     (forces : List (ForceElt M)) (f : ForceElt M) (hf : f ∈ forces) (hnp : f.parallel = false)
     (hev : evaluated mode f = true) (shared0 : M) :
-    ∃ sched, ¬ RaceFree (configCurrent numThreads mode forces) shared0 sched := by
-  have hn : 2 ≤ (configCurrent numThreads mode forces).n := by
-    rw [configCurrent_n]; unfold C33.peWorkers; split <;> omega
-  have hd : (configCurrent numThreads mode forces).direct ≠ [] := by
-    simp only [configCurrent, taskDirect]
+    ∃ sched, ¬ RaceFree (configOld numThreads mode forces) shared0 sched := by
+  have hn : 2 ≤ (configOld numThreads mode forces).n := by
+    rw [configV_n]; unfold C33.peWorkers; split <;> omega
+  have hd : (configOld numThreads mode forces).direct ≠ [] := by
+    simp only [configV, taskDirectV, if_true]
     have hmem : f.value ∈ ((forces.filter (fun f => !f.parallel)).filter (evaluated mode)).map (·.value) :=
       List.mem_map.mpr ⟨f, List.mem_filter.mpr ⟨List.mem_filter.mpr ⟨hf, by simp [hnp]⟩, hev⟩, rfl⟩
     cases mode with
@@ -81,46 +85,12 @@ theorem current_code_has_race (numThreads : Nat) (h2 : 2 ≤ numThreads) (mode :
   rw [List.take_length] at this
   exact this hr
 
-/-- mode `All` of the current code accumulates thread-locally everywhere: race free under every schedule -/
-theorem mode_all_raceFree (numThreads : Nat) (forces : List (ForceElt M)) (shared0 : M) (sched : List Nat) :
-    RaceFree (configCurrent numThreads .all forces) shared0 sched := by
+/-- the CURRENT code accumulates thread-locally everywhere, in every mode: race free under every schedule -/
+theorem current_code_raceFree (numThreads : Nat) (mode : Mode) (forces : List (ForceElt M)) (shared0 : M)
+    (sched : List Nat) : RaceFree (configCurrent numThreads mode forces) shared0 sched := by
   apply raceFree_of_locals_only
-  · rw [configCurrent_n]; unfold C33.peWorkers; split <;> omega
+  · rw [configV_n]; exact workers_pos _
   · rfl
-
-theorem sumW_split_first (c : Config M) (f g : Nat → List M) (h0 : ∀ w, w ≠ 0 → f w = g w) (d : List M) (hd : f 0 = d ++ g 0) :
-    ∀ n, 0 < n → sumW (fun w => sumList (f w)) n = sumList d + sumW (fun w => sumList (g w)) n := by
-  intro n; induction n with
-  | zero => intro h; omega
-  | succ n ih =>
-    intro _
-    simp only [sumW]
-    by_cases hn : n = 0
-    · subst hn; simp only [sumW, hd, sumList_append]; abel
-    · rw [ih (by omega), h0 n hn]; abel
-
-/-- the repaired task (task 0 thread-local in all modes) asks for the same total -/
-theorem fixed_total_eq (numThreads : Nat) (mode : Mode) (forces : List (ForceElt M)) :
-    totalOf (configFixed numThreads mode forces) = totalOf (configCurrent numThreads mode forces) := by
-  have hn : 0 < (configCurrent numThreads mode forces).n := by
-    rw [configCurrent_n]; unfold C33.peWorkers; split <;> omega
-  simp only [totalOf, configFixed, sumW_range]
-  rw [sumW_split_first (configCurrent numThreads mode forces) _ (configCurrent numThreads mode forces).contribs
-      (fun w hw => by simp [hw]) (configCurrent numThreads mode forces).direct (by simp) _ hn]
-  simp [sumList]
-
-/-- **the proposed fix is correct for every schedule**: with task 0 accumulating into its thread-local arrays in
-all modes, every schedule is race free and every complete schedule yields the same total as the serial sum. -/
-theorem fixed_code_total (numThreads : Nat) (mode : Mode) (forces : List (ForceElt M)) (shared0 : M) (sched : List Nat)
-    (hc : Complete (configFixed numThreads mode forces) (run (configFixed numThreads mode forces) (init shared0) sched)) :
-    RaceFree (configFixed numThreads mode forces) shared0 sched ∧
-    (run (configFixed numThreads mode forces) (init shared0) sched).shared =
-      shared0 + totalOf (configCurrent numThreads mode forces) := by
-  have hn : 0 < (configFixed numThreads mode forces).n := by
-    show 0 < C33.peWorkers numThreads
-    unfold C33.peWorkers; split <;> omega
-  have hrf := raceFree_of_locals_only (configFixed numThreads mode forces) hn rfl shared0 sched
-  exact ⟨hrf, by rw [total_order_independent _ hn shared0 sched hrf hc, fixed_total_eq]⟩
 
 /-! ### the requested total is the serial sum over the force elements -/
 
@@ -164,15 +134,15 @@ theorem serialSum_split (mode : Mode) (forces : List (ForceElt M)) :
       simp only [List.filter_cons, hp, he, Bool.not_false, Bool.not_true, if_true, if_false, List.map_cons, sumList,
         Bool.false_eq_true] <;> rw [ih] <;> abel
 
-theorem sum_par_tasks (mode : Mode) (forces : List (ForceElt M)) :
+theorem sum_par_tasks (old : Bool) (mode : Mode) (forces : List (ForceElt M)) :
     ∀ (par : List (ForceElt M)), par = forces.filter (fun f => f.parallel) →
-    sumList ((List.range par.length).map (fun k => sumList (taskLocal mode forces (k + 1)))) = serialSum mode par := by
+    sumList ((List.range par.length).map (fun k => sumList (taskLocalV old mode forces (k + 1)))) = serialSum mode par := by
   intro par hpar
-  have key : ∀ k, taskLocal mode forces (k + 1) =
+  have key : ∀ k, taskLocalV old mode forces (k + 1) =
       match par[k]? with
       | some f => if evaluated mode f then [f.value] else []
       | none => [] := by
-    intro k; subst hpar; simp only [taskLocal, Nat.add_sub_cancel, Nat.succ_ne_zero, if_false]; rfl
+    intro k; subst hpar; simp only [taskLocalV, Nat.add_sub_cancel, Nat.succ_ne_zero, if_false]; rfl
   have gen : ∀ (l : List (ForceElt M)),
       sumList ((List.range l.length).map (fun k => sumList (match l[k]? with
         | some f => if evaluated mode f then [f.value] else []
@@ -192,74 +162,90 @@ theorem sum_par_tasks (mode : Mode) (forces : List (ForceElt M)) :
   intro k _
   rw [key k]
 
-/-- **`total = Σᵢ fᵢ`**: what the transcription of the current code asks the workers to add up — for every thread
+/-- **`total = Σᵢ fᵢ`**: what the transcription (current code and the pre-fix code alike) asks the workers to add up — for every thread
 count and every mode — is the serial sum of the evaluated force elements. -/
-theorem totalOf_current_eq_serial (numThreads : Nat) (mode : Mode) (forces : List (ForceElt M)) :
-    totalOf (configCurrent numThreads mode forces) = serialSum mode forces := by
+theorem totalOf_eq_serial (old : Bool) (numThreads : Nat) (mode : Mode) (forces : List (ForceElt M)) :
+    totalOf (configV old numThreads mode forces) = serialSum mode forces := by
   set par := forces.filter (fun f => f.parallel) with hpar
   set nonPar := forces.filter (fun f => !f.parallel) with hnon
   set T := 1 + par.length with hT
   have h1 : sumList ((List.range (workers numThreads)).map
-      (fun w => sumList ((tasksOf numThreads T w).flatMap (taskLocal mode forces)))) =
-      sumList ((List.range T).map (fun k => sumList (taskLocal mode forces k))) := by
-    have e : (List.range (workers numThreads)).map (fun w => sumList ((tasksOf numThreads T w).flatMap (taskLocal mode forces)))
+      (fun w => sumList ((tasksOf numThreads T w).flatMap (taskLocalV old mode forces)))) =
+      sumList ((List.range T).map (fun k => sumList (taskLocalV old mode forces k))) := by
+    have e : (List.range (workers numThreads)).map (fun w => sumList ((tasksOf numThreads T w).flatMap (taskLocalV old mode forces)))
         = ((List.range (workers numThreads)).map (tasksOf numThreads T)).map
-            (fun ts => sumList (ts.map (fun k => sumList (taskLocal mode forces k)))) := by
+            (fun ts => sumList (ts.map (fun k => sumList (taskLocalV old mode forces k)))) := by
       rw [List.map_map]; apply List.map_congr_left; intro w _; simp [Function.comp, sumList_flatMap]
     rw [e, tasks_eq_assignment]
-    have e2 : (C33.peAssignment numThreads T).map (fun ts => sumList (ts.map (fun k => sumList (taskLocal mode forces k))))
-        = ((C33.peAssignment numThreads T).map (fun ts => ts.map (fun k => sumList (taskLocal mode forces k)))).map sumList := by
+    have e2 : (C33.peAssignment numThreads T).map (fun ts => sumList (ts.map (fun k => sumList (taskLocalV old mode forces k))))
+        = ((C33.peAssignment numThreads T).map (fun ts => ts.map (fun k => sumList (taskLocalV old mode forces k)))).map sumList := by
       rw [List.map_map]; rfl
     rw [e2, ← sumList_flatten, ← List.map_flatten]
     apply sumList_perm
     apply List.Perm.map
     exact (List.perm_ext_iff_of_nodup (C33.peAssignment_nodup _ _) List.nodup_range).mpr
       (fun i => by rw [C33.mem_peAssignment, List.mem_range])
-  have h2 : sumList ((List.range T).map (fun k => sumList (taskLocal mode forces k))) =
-      sumList (taskLocal mode forces 0) + serialSum mode par := by
+  have h2 : sumList ((List.range T).map (fun k => sumList (taskLocalV old mode forces k))) =
+      sumList (taskLocalV old mode forces 0) + serialSum mode par := by
     rw [hT, Nat.add_comm, List.range_succ_eq_map, List.map_cons, List.map_map]
     simp only [sumList, Function.comp_def, Nat.succ_eq_add_one]
-    rw [sum_par_tasks mode forces par hpar]
-  have h3 : sumList (taskDirect mode forces) + sumList (taskLocal mode forces 0) = serialSum mode nonPar := by
+    rw [sum_par_tasks old mode forces par hpar]
+  have h3 : sumList (taskDirectV old mode forces) + sumList (taskLocalV old mode forces 0) = serialSum mode nonPar := by
     have hall : ∀ l : List (ForceElt M), l.filter (evaluated .all) = l :=
       fun l => List.filter_eq_self.mpr (fun _ _ => rfl)
-    cases mode <;> simp [taskDirect, taskLocal, serialSum, sumList, ← hnon, hall]
+    cases old <;> cases mode <;> simp [taskDirectV, taskLocalV, serialSum, sumList, ← hnon, hall]
   unfold totalOf
-  have e0 : (configCurrent numThreads mode forces).direct = taskDirect mode forces := rfl
-  have e1 : (configCurrent numThreads mode forces).n = workers numThreads := rfl
-  have e2 : (fun w => sumList ((configCurrent numThreads mode forces).contribs w)) =
-      (fun w => sumList ((tasksOf numThreads T w).flatMap (taskLocal mode forces))) := rfl
+  have e0 : (configV old numThreads mode forces).direct = taskDirectV old mode forces := rfl
+  have e1 : (configV old numThreads mode forces).n = workers numThreads := rfl
+  have e2 : (fun w => sumList ((configV old numThreads mode forces).contribs w)) =
+      (fun w => sumList ((tasksOf numThreads T w).flatMap (taskLocalV old mode forces))) := rfl
   rw [e0, e1, e2, h1, h2, ← add_assoc, h3, serialSum_split mode forces]
 
-/-! ### the concrete lost update (finding F7 in miniature) -/
+/-- **the current code is correct for every schedule**: every interleaving of the current
+`CalcForcesParallelTask` is race free, and every complete one leaves the serial sum of the evaluated force
+elements in the shared arrays — for every thread count, every mode, every mix of parallel / non-parallel /
+position-only elements, in any commutative monoid. -/
+theorem current_code_total (numThreads : Nat) (mode : Mode) (forces : List (ForceElt M)) (shared0 : M) (sched : List Nat)
+    (hc : Complete (configCurrent numThreads mode forces) (run (configCurrent numThreads mode forces) (init shared0) sched)) :
+    RaceFree (configCurrent numThreads mode forces) shared0 sched ∧
+    (run (configCurrent numThreads mode forces) (init shared0) sched).shared = shared0 + serialSum mode forces := by
+  have hn : 0 < (configCurrent numThreads mode forces).n := by rw [configV_n]; exact workers_pos _
+  have hrf := current_code_raceFree numThreads mode forces shared0 sched
+  exact ⟨hrf, by rw [total_order_independent _ hn shared0 sched hrf hc, totalOf_eq_serial]⟩
+
+/-! ### the concrete lost update (finding F7 in miniature, HISTORICAL: the code before commit 199e8a3a) -/
 
 /-- one non-parallel velocity-dependent force adding 1, one parallel force adding 1000, one position-only
 force (which is what switches the subsystem into the caching modes); two executor threads; mode `NonCached` -/
 def f7Forces : List (ForceElt Nat) := [⟨false, false, 1⟩, ⟨true, false, 1000⟩, ⟨false, true, 5⟩]
 
-/-- worker 0 loads the shared array (0); worker 1 runs its parallel force and `finish()` (shared = 1000);
+/-- old code: worker 0 loads the shared array (0); worker 1 runs its parallel force and `finish()` (shared = 1000);
 worker 0 stores 0 + 1: the parallel force's contribution is lost. -/
 def f7Schedule : List Nat := [0, 0, 1, 1, 1, 1, 1, 1, 1, 0, 0, 0, 0, 0, 0]
 
 instance (c : Config Nat) (s : State Nat) : Decidable (Complete c s) := by
   unfold Complete; exact Nat.decidableBallLT _ _
 
-/-- the transcription of the current code for this configuration -/
+/-- the transcription of the OLD code for this configuration -/
+def f7ConfigOld : Config Nat := configOld 2 .nonCached f7Forces
+
+/-- the transcription of the CURRENT code for this configuration -/
 def f7Config : Config Nat := configCurrent 2 .nonCached f7Forces
 
-/-- **`lost_update_witness`**: an explicit complete interleaving of the current code's `NonCached` mode ends
-with total 1 although the serial sum is 1001 (the parallel force's 1000 is lost); the schedule is not race free. -/
-theorem lost_update_witness :
-    Complete f7Config (run f7Config (init 0) f7Schedule) ∧
-    (run f7Config (init 0) f7Schedule).shared = 1 ∧ totalOf f7Config = 1001 ∧
-    serialSum .nonCached f7Forces = 1001 ∧ ¬ RaceFree f7Config 0 f7Schedule := by
-  refine ⟨by decide, by decide, by decide, by decide, ?_⟩
+/-- **`lost_update_witness_old`** (HISTORICAL): an explicit complete interleaving of the pre-fix `NonCached` mode
+ends with total 1 although the serial sum is 1001 (the parallel force's 1000 is lost); the schedule is not race
+free.  Under the current code the very same schedule is complete and yields 1001. -/
+theorem lost_update_witness_old :
+    Complete f7ConfigOld (run f7ConfigOld (init 0) f7Schedule) ∧
+    (run f7ConfigOld (init 0) f7Schedule).shared = 1 ∧ totalOf f7ConfigOld = 1001 ∧
+    serialSum .nonCached f7Forces = 1001 ∧ ¬ RaceFree f7ConfigOld 0 f7Schedule ∧
+    Complete f7Config (run f7Config (init 0) f7Schedule) ∧ (run f7Config (init 0) f7Schedule).shared = 1001 := by
+  refine ⟨by decide, by decide, by decide, by decide, ?_, by decide, by decide⟩
   intro h
   apply h 7
   exact ⟨0, 1, by decide, by decide, by decide, true, true, by decide, by decide, Or.inl rfl⟩
 
-/-- non-vacuity of `total_order_independent`: a race-free complete schedule of the current code exists (the
-sequential one) and gives the serial sum -/
+/-- non-vacuity of `total_order_independent` / `current_code_total`: complete schedules exist -/
 example :
     Complete f7Config (run f7Config (init 0) (sequentialSchedule f7Config)) ∧
     (run f7Config (init 0) (sequentialSchedule f7Config)).shared = 1001 := by
